@@ -20,8 +20,10 @@ pub struct RowSetIterator {
     column_refs: Arc<[StorageColumnRef]>,
     dvs: Vec<Arc<DeleteVector>>,
     column_iterators: Vec<ColumnIteratorImpl>,
-    /// An optional filter for the first column.
+    /// An optional filter for the sort key column.
     filter: Option<KeyRange>,
+    /// Position of the sort key column in `column_refs`.
+    filter_column: Option<usize>,
     /// Indicate whether the iterator has reached the end.
     end: bool,
 }
@@ -50,6 +52,12 @@ impl RowSetIterator {
 
         if row_handler_count > 1 {
             panic!("more than 1 row handler column")
+        }
+
+        let sort_key = StorageColumnRef::Idx(rowset.sort_key_column() as u32);
+        let filter_column = column_refs.iter().position(|x| *x == sort_key);
+        if filter.is_some() && filter_column.is_none() {
+            panic!("range filter without the sort key column")
         }
 
         let mut column_iterators: Vec<ColumnIteratorImpl> = vec![];
@@ -86,6 +94,7 @@ impl RowSetIterator {
             dvs,
             column_iterators,
             filter,
+            filter_column,
             end: false,
         })
     }
@@ -219,9 +228,9 @@ impl RowSetIterator {
                 common_chunk_range = Some(current_range);
             }
 
-            // For now, we only support range-filter scan by first column.
+            // For now, we only support range-filter scan by the first sort key column.
             if let Some(range) = &self.filter
-                && id == 0
+                && Some(id) == self.filter_column
             {
                 let len = array.len();
                 let start_row_id = match &range.start {
